@@ -505,7 +505,501 @@ def c07(rep, tier, seed, wd, replay):
     run_hist_property(rep, tier, seed, wd, "C07", SIGN_KINDS + ("export",), opts, sizes, corpus=False)
 
 
+def run_imp_scenarios(rep, dh, wd, scen, label="imp"):
+    """scen: list of (cfg lines, ops). Runs the dirk binary and the model; diffs; judges imports."""
+    from common import run_impl, run_model, build_dirk
+    import imp
+    dirk = build_dirk(wd)
+    from concurrent.futures import ThreadPoolExecutor
+    jobs = min(12, max(1, len(scen) // 4))
+    chunks = [scen[i::jobs] for i in range(jobs)]
+    chunks = [c for c in chunks if c]
+
+    def run_chunk(ch):
+        lines = []
+        for cfg, ops in ch:
+            lines.append("reset")
+            lines += cfg + ops
+        impl, crashed, err = run_impl(dh, wd, lines, engine="imp", extra_args=[dirk])
+        model = run_model(lines)
+        res = []
+        pos = 0
+        for cfg, ops in ch:
+            n = 1 + len(ops)
+            res.append((cfg, ops, impl[pos + 1:pos + n], model[pos + 1:pos + n]))
+            pos += n
+        return res, crashed, err
+    results = []
+    with ThreadPoolExecutor(max_workers=jobs) as ex:
+        for res, crashed, err in ex.map(run_chunk, chunks):
+            results += res
+            if crashed:
+                rep.broken.append(("implementation-crash:" + label, err, False))
+    first_bad = None
+    jl, jidx = [], []
+    for si, (cfg, ops, impl, model) in enumerate(results):
+        overlap = False
+        for i, op in enumerate(ops):
+            il = impl[i] if i < len(impl) else "<missing>"
+            ml = model[i] if i < len(model) else "<missing>"
+            if il.strip() != ml.strip() and first_bad is None:
+                first_bad = (si, i, op, il, ml)
+            k = op.split()[0]
+            rep.dist("op", k)
+            if k == "import":
+                rep.dist("import_result", il)
+                f = op.split()
+                before = imp.parse_export(impl[i - 1]) if i >= 1 else None
+                after = imp.parse_export(impl[i + 1]) if i + 1 < len(impl) else None
+                if before is None or after is None:
+                    continue
+                jl.append("jimpfile %s %s" % (f[2], f[3]))
+                jidx.append(None)
+                keys = sorted(set(before) | set(after))
+                if set(before) & set(after):
+                    overlap = True
+                for key in keys:
+                    b = before.get(key, ("-1", "-1", "-1"))
+                    a = after.get(key, ("-1", "-1", "-1"))
+                    jl.append("%s %s %s %s" % ("jimpkey" if il == "ok" else "jimpfail", key, " ".join(b), " ".join(a)))
+                    jidx.append((si, i, key))
+        rep.count(json.dumps(ops), overlap)
+    out = run_model(jl)
+    found = False
+    for meta, o in zip(jidx, out):
+        if meta is None or o.strip() == "ok":
+            continue
+        si, i, key = meta
+        cfg, ops, impl, model = results[si]
+        rep.violation("import-" + o.strip(),
+                      "after an import the exported protection of key %s is judged %s by the Lean specification" % (key[:12], o.strip()),
+                      {"config": cfg, "ops": ops[:i + 2], "impl": impl[:i + 2], "key": key,
+                       "decoded_import": [bytes.fromhex(x).decode(errors="replace") if x not in ("-", ".") else x
+                                          for x in ops[i].replace(",", " ").replace(";", " ").replace(":", " ").replace("~", " ").split()[1:]]})
+        found = True
+        break
+    rep.cov["imports_judged"] = sum(1 for m in jidx if m is None)
+    if results:
+        cfg, ops, impl, model = results[-1]
+        rep.sample({"ops": [o[:200] for o in ops[:4]], "impl": impl[:4], "model": model[:4]})
+    if first_bad is not None:
+        si, i, op, il, ml = first_bad
+        cfg, ops, impl, model = results[si]
+        rep.broken.append(("correspondence:%s(model importFile vs dirk binary)" % label,
+                           json.dumps({"config": cfg, "ops": ops[:i + 1], "impl": il, "model": ml}), found))
+    return results
+
+
+def c10(rep, tier, seed, wd, replay):
+    import imp
+    rep.cov["rule"] = ("import scenarios driven through the built dirk binary: prior stores (raw records, earlier imports, rule probes) x "
+                       "interchange files (0-5 entries, repeated keys, blocks/attestations in any mix, one field newer another older or "
+                       "absent, negative/overflowing/malformed numbers, short/long/garbage/upper-case keys, wrong version/root/missing "
+                       "metadata) x sequences of 1-4 steps; non-trivial = a key present both before and after an import")
+    rep.assumptions += ["encoding/json and viper are not modelled: both sides receive the same structured description of each file"]
+    prove(rep, "C10")
+    dh = build_harness(wd)
+    rng = Rng(seed * 104729 + 10)
+    n = tier_sizes(tier, 160, 3000)
+    k0 = imp.KEYS[0]
+    G = imp.G
+    scen = []
+    # corpus: the shipped defect — a file newer in one field, absent/older in another, is dropped whole
+    v1att = lambda s, t: (bytes([1]) + s.to_bytes(8, "little") + t.to_bytes(8, "little")).hex()
+    v1prop = lambda s: (bytes([1]) + s.to_bytes(8, "little")).hex()
+    cfg = ["raw %s %s" % ((k0 + b"\x02").hex(), v1att(5, 6)), "raw %s %s" % ((k0 + b"\x03").hex(), v1prop(10)), "begin"]
+    scen.append((cfg, ["export", imp.import_line(G, ("5", G), [("0x" + k0.hex(), ["20"], [])]), "export", "probeprop %s 15" % k0.hex(), "export"]))
+    scen.append((cfg, ["export", imp.import_line(G, ("5", G), [("0x" + k0.hex(), ["3"], [("7", "9")])]), "export"]))
+    scen.append((cfg, ["export", imp.import_line(G, ("5", G), [("0x" + k0.hex(), ["30"], []), ("0x" + k0.hex(), ["12"], [("8", "9")])]), "export"]))
+    scen.append((["begin"], ["export", imp.import_line(G, ("5", G), [("0x" + k0.hex(), ["30"], [("1", "2")]), ("0x" + k0.hex(), ["12"], [])]), "export"]))
+    for _ in range(n):
+        r = rng.fork()
+        scen.append(imp.gen_scenario(r, good_only=r.chance(0.4)))
+    run_imp_scenarios(rep, dh, wd, scen)
+    rep.cov["traces_validated_against_impl"] = len(scen)
+
+
+def c08(rep, tier, seed, wd, replay):
+    rep.cov["rule"] = ("well-formed attestation/proposal/generic requests with arbitrary field values (0 and 2^64-1 slots/indices, "
+                       "patterned roots), by name or key, single and in batches of sizes 1,2,3,15,16,17,33,64,65 (thorough: up to 300) "
+                       "under GOMAXPROCS 1,2,3,16; every returned signature is verified by the real BLS library under the addressed "
+                       "account's public key over the signing root computed by the Lean model; non-trivial = request that returned a signature")
+    rep.assumptions += ["SHA-256 collision resistance; BLS library (herumi) correctness; the model's SHA-256/SSZ re-implementation is tied by this very check"]
+    prove(rep, "C08")
+    dh = build_harness(wd)
+    big = tier == "thorough"
+    nacct = 300 if big else 65
+    keys = hist.interop_keys(dh, nacct + 2)
+    rng = Rng(seed * 31337 + 8)
+    accts = [hist.Acct("Wallet 1" if i % 2 == 0 else "Wallet 2", "Account %d" % i, keys[i]) for i in range(nacct)]
+    perms = [("c", ".*", ["All"])]
+    cfg = hist.config_lines(accts, perms, ["10.0.0.1"])
+    sizes = [1, 2, 3, 15, 16, 17, 33, 64, 65] + ([127, 128, 129, 300] if big else [])
+    ops = []
+    epoch = 1
+    g = hist.HistGen(rng, accts, {"clean": True})
+
+    def adr(a):
+        return rng.choice(["n:" + hx(a.path), "k:" + a.pk.hex()])
+    for n in sizes:
+        picks = rng.shuffle(accts)[:n]
+        items = []
+        for a in picks:
+            rt = [bytes(rng.below(256) for _ in range(32)).hex() for _ in range(3)]
+            slot = rng.choice([0, 1, epoch * 32, hist.TWO64 - 1])
+            cidx = rng.choice([0, 5, hist.TWO64 - 1])
+            items.append("%s,%s,%d,%d,%s,%d,%s,%d,%s" % (adr(a), hist.dom32(DOM_ATT, rng).hex(), slot, cidx, rt[0], epoch, rt[1], epoch + 1, rt[2]))
+        ops.append("atts %s - - %s" % (hx("c"), ";".join(items)))
+        epoch += 2
+        ms = ";".join("%s,%s,%s" % (adr(a), hist.dom32(DOM_RANDAO, rng).hex(), bytes(rng.below(256) for _ in range(32)).hex()) for a in picks)
+        ops.append("msign %s - - %s" % (hx("c"), ms))
+    for i in range(40 if not big else 300):
+        a = rng.choice(accts)
+        rt = [bytes(rng.below(256) for _ in range(32)).hex() for _ in range(3)]
+        ops.append("att %s - %s %s,%d,%d,%s,%d,%s,%d,%s -" % (hx("c"), adr(a), hist.dom32(DOM_ATT, rng).hex(), rng.choice([0, hist.TWO64 - 1, 77]),
+                                                             rng.choice([0, hist.TWO64 - 1]), rt[0], epoch, rt[1], epoch + 1, rt[2]))
+        ops.append("prop %s - %s %s,%d,%d,%s,%s,%s -" % (hx("c"), adr(a), hist.dom32(DOM_PROP, rng).hex(), epoch, rng.choice([0, hist.TWO64 - 1, 9]), rt[0], rt[1], rt[2]))
+        ops.append("sign %s - %s %s,%s -" % (hx("c"), adr(a), hist.dom32(DOM_RANDAO, rng).hex(), rt[0]))
+        epoch += 2
+    all_h = []
+    for p in ([1, 2, 3, 16] if not big else [1, 2, 3, 16, 128]):
+        h = {"cfg": cfg, "ops": ops, "accts": accts, "opts": {}, "gomaxprocs": p}
+        crashed, err = engines.exec_histories(dh, wd, [h], env={"GOMAXPROCS": str(p)}, jobs=1)
+        if crashed:
+            rep.broken.append(("implementation-crash:ssz", err, False))
+        all_h.append(h)
+    found = False
+    first_bad = None
+    nsig = 0
+    for h in all_h:
+        rel = [b for b in h["bad"]]
+        if rel and first_bad is None:
+            first_bad = (h, rel[0])
+        for i, op in enumerate(h["ops"]):
+            k = op.split()[0]
+            rep.dist("op", k)
+            if i < len(h["impl"]):
+                pls = hist.payloads_of(h["impl"][i])
+                for j, pl in enumerate(pls):
+                    rep.count("%s|%d|%d|%s" % (h["gomaxprocs"], i, j, op[:40]), pl is not None)
+                    nsig += pl is not None
+                if k in ("atts", "msign"):
+                    rep.dist("batch_size", str(len(pls)))
+                    if len(pls) != len(op.split()[4].split(";")):
+                        rep.violation("shape", "response does not have exactly one entry per request",
+                                      {"config": "65/300 accounts, all permitted", "op_index": i, "gomaxprocs": h["gomaxprocs"]})
+                        found = True
+    if judge_sig(rep, dh, wd, all_h):
+        found = True
+    # the verifier must discriminate: a signature must not verify for the neighbouring position's root
+    h = all_h[0]
+    lines = []
+    for i, op in enumerate(h["ops"]):
+        if op.startswith("atts") and i < len(h["impl"]):
+            ip, mp = hist.payloads_of(h["impl"][i]), hist.payloads_of(h["model"][i])
+            items = op.split()[4].split(";")
+            for j in range(len(ip) - 1):
+                if ip[j] and mp[j + 1] and mp[j] != mp[j + 1]:
+                    key = hist.key_of_addr(items[j].split(",")[0], accts)
+                    lines.append("%s %s %s" % (key.hex(), mp[j + 1], ip[j]))
+    if lines:
+        from common import sh
+        rc, out, err = sh([dh, "sigcheck"], input="\n".join(lines[:200]) + "\n")
+        rep.cov["neighbour_roots_rejected"] = sum(1 for o in out.splitlines() if o.strip() == "bad")
+        if any(o.strip() == "ok" for o in out.splitlines()):
+            rep.violation("neighbour-verifies", "a signature verifies for the neighbouring request's data", {"lines": lines[:3]})
+            found = True
+    rep.sample({"op": ops[0][:300], "impl": h["impl"][0][:120], "model": h["model"][0][:120]})
+    rep.cov["traces_validated_against_impl"] = len(all_h)
+    if first_bad is not None:
+        h, (i, op, il, ml) = first_bad
+        rep.broken.append(("correspondence:ssz(model C08 vs implementation)",
+                           json.dumps({"gomaxprocs": h["gomaxprocs"], "op_index": i, "op": op[:500], "impl": il[:300], "model": ml[:300]}), found))
+
+
+def c09(rep, tier, seed, wd, replay):
+    rep.cov["rule"] = ("(a) util.Scatter's (offset, entries) pairs for every n<=600 (thorough 5000) x GOMAXPROCS in {1,2,3,4,7,8,16,64,128} against "
+                       "the Lean extents function (exhaustive over that grid); (b) clean histories (well-formed, authorised, fault-free "
+                       "requests, advancing and non-advancing epochs/slots below 2^63): every request that advances on everything "
+                       "released so far for its key must be SUCCEEDED (Lean judge); (c) each history's last batch is also executed entry "
+                       "by entry on a twin instance with the identical prefix: verdicts must be equal position by position, under "
+                       "several GOMAXPROCS; non-trivial = history with >=1 batch of >=2 entries")
+    rep.assumptions += ["liveness is judged on fault-free, import-free histories only (a landed-but-failed write or an import legitimately "
+                        "leaves a record above everything signed)"]
+    prove(rep, "C09")
+    dh = build_harness(wd)
+    from common import run_model, sh
+    # (a) scatter
+    nmax = 600 if tier != "thorough" else 5000
+    ps = [1, 2, 3, 4, 7, 8, 16, 64, 128]
+    lines = ["scatter %d %d" % (n, p) for p in ps for n in range(1, nmax + 1)]
+    rc, out, err = sh([dh, "scatter"], input="\n".join(lines) + "\n")
+    if rc != 0:
+        raise Broken("scatter-engine", err[-1000:])
+    impl = out.splitlines()
+    model = run_model(lines)
+    rep.cov["scatter_cases"] = len(lines)
+    found = False
+    sc_bad = None
+    for l, i, m in zip(lines, impl, model):
+        if i.strip() != m.strip():
+            sc_bad = (l, i, m)
+            # is it an actual partition failure? (judge: the pairs must tile 0..n-1)
+            n = int(l.split()[1])
+            covered = []
+            ok = True
+            try:
+                for tok in i.split():
+                    o, c = tok.split(":")
+                    covered += list(range(int(o), int(o) + int(c)))
+                    ok = ok and int(c) > 0
+            except Exception:
+                ok = False
+            if not ok or covered != list(range(n)):
+                rep.violation("scatter-partition", "util.Scatter does not split [0,n) into consecutive non-empty extents covering every index once",
+                              {"case": l, "impl": i, "model": m})
+                found = True
+            break
+    if sc_bad and not found:
+        rep.broken.append(("correspondence:scatter(model extents vs util.Scatter)", json.dumps(sc_bad), False))
+    rep.dist("scatter", "cases", len(lines))
+    # (b) + (c)
+    sizes = tier_sizes(tier, (40, 40), (300, 100))
+    opts = {"clean": True, "huge": False, "nacct": 5, "gomaxprocs": [None, 2] if tier != "thorough" else [1, 2, 16, 128]}
+
+    def live_lines(h):
+        for i, op in enumerate(h["ops"]):
+            f = op.split()
+            if i >= len(h["impl"]):
+                break
+            if f[0] == "att":
+                key = hist.key_of_addr(f[3], h["accts"])
+                d = f[4].split(",")
+                st = hist.states_of(h["impl"][i])[0]
+                yield ("jliveatt %s %s %s %s" % (key.hex(), d[4], d[6], st), (i, 0, op[:160]))
+                if ":" in h["impl"][i]:
+                    yield ("jatt %s %s" % (key.hex(), f[4]), (i, 0, "release"))
+            elif f[0] == "atts":
+                sts = hist.states_of(h["impl"][i])
+                pls = hist.payloads_of(h["impl"][i])
+                for j, it in enumerate(f[4].split(";")):
+                    adr, data = it.split(",", 1)
+                    key = hist.key_of_addr(adr, h["accts"])
+                    d = data.split(",")
+                    yield ("jliveatt %s %s %s %s" % (key.hex(), d[4], d[6], sts[j] if j < len(sts) else "?"), (i, j, op[:160]))
+                for j, it in enumerate(f[4].split(";")):
+                    adr, data = it.split(",", 1)
+                    if j < len(pls) and pls[j]:
+                        yield ("jatt %s %s" % (hist.key_of_addr(adr, h["accts"]).hex(), data), (i, j, "release"))
+            elif f[0] == "prop":
+                key = hist.key_of_addr(f[3], h["accts"])
+                d = f[4].split(",")
+                st = hist.states_of(h["impl"][i])[0]
+                yield ("jliveprop %s %s %s" % (key.hex(), d[1], st), (i, 0, op[:160]))
+                if ":" in h["impl"][i]:
+                    yield ("jprop %s %s" % (key.hex(), f[4]), (i, 0, "release"))
+
+    def judge(rep, dh, wd, all_h):
+        bad = judge_lines(rep, all_h, live_lines, "requests_judged_for_liveness")
+        bad = [b for b in bad if b[-1] == "REFUSED-ADVANCING"]
+        if bad:
+            hi, i, j, op, verdict = bad[0]
+            rep.violation("refused-advancing", "a well-formed, authorised request advancing on everything released for its key was not signed",
+                          {"config": all_h[hi]["cfg"], "ops": all_h[hi]["ops"][:i + 1], "position": j, "gomaxprocs": all_h[hi].get("gomaxprocs")})
+            return True
+        return False
+
+    def twins(keys, rng):
+        return []
+    all_h = run_hist_property(rep, tier, seed, wd, "C09", SIGN_KINDS + ("export",), opts, sizes, judges=[judge],
+                              nontrivial=lambda h: any(o.startswith("atts") and ";" in o for o in h["ops"]), corpus=False)
+    # (c) batch vs one-at-a-time on a twin instance
+    pairs = []
+    for h in all_h:
+        idx = [i for i, o in enumerate(h["ops"]) if o.startswith("atts") and ";" in o]
+        if not idx:
+            continue
+        i = idx[-1]
+        f = h["ops"][i].split()
+        singles = ["att %s %s %s %s -" % (f[1], f[2], it.split(",", 1)[0], it.split(",", 1)[1]) for it in f[4].split(";")]
+        a = dict(h, ops=h["ops"][:i + 1])
+        b = dict(h, ops=h["ops"][:i] + singles)
+        pairs.append((a, b, i, len(singles)))
+    byp = {}
+    for a, b, i, n in pairs:
+        byp.setdefault(a.get("gomaxprocs"), []).append((a, b, i, n))
+    ntw = 0
+    for p, lst in byp.items():
+        env = {"GOMAXPROCS": str(p)} if p else None
+        flat = [x for a, b, i, n in lst for x in (a, b)]
+        engines.exec_histories(dh, wd, flat, env=env)
+        for a, b, i, n in lst:
+            ntw += 1
+            batch = hist.states_of(a["impl"][i]) if i < len(a["impl"]) else []
+            seq = [hist.states_of(l)[0] for l in b["impl"][i:i + n]]
+            mb = hist.states_of(a["model"][i]) if i < len(a["model"]) else []
+            ms = [hist.states_of(l)[0] for l in b["model"][i:i + n]]
+            rep.dist("twin_batch_size", str(n))
+            if batch != seq:
+                rep.violation("batch-differs-from-sequence", "a batch of well-formed requests with distinct keys gives other verdicts than its entries one at a time",
+                              {"config": a["cfg"], "batch_history": a["ops"], "sequential_history": b["ops"], "batch": batch, "sequential": seq, "gomaxprocs": p})
+                found = True
+                break
+            if mb != ms:
+                rep.broken.append(("model:batch-vs-sequence", json.dumps({"ops": a["ops"][-1][:300]}), False))
+    rep.cov["twin_pairs"] = ntw
+
+
+def gob_records(dh, specs):
+    from common import sh
+    rc, out, err = sh([dh, "gob"], input="\n".join(specs) + "\n")
+    if rc != 0:
+        raise Broken("gob-engine", err[-1000:])
+    return [bytes.fromhex(l.strip()) for l in out.splitlines()]
+
+
+def c11(rep, tier, seed, wd, replay):
+    import imp
+    rep.cov["rule"] = ("(a) clean histories with frequent exports: every export must state exactly the highest released slot/source/"
+                       "target per key (Lean judge) and equal the model's; restarts in between; (b) stores pre-populated with records "
+                       "written by Go's own encoding/gob (legacy format; values -1,0,small,2^31,2^63-1, mixed) opened by the real rules "
+                       "service and probed around the watermarks, the Lean gob model decoding the same bytes; (c) export by the binary -> "
+                       "import into an empty store by the binary -> identical probes on original and copy must give identical verdicts")
+    rep.assumptions += ["export exactness is judged on fault-free histories of well-formed requests (the property's quantifier)",
+                        "the Lean gob model covers the streams Go's encoder produces for the two legacy structs, not arbitrary gob streams"]
+    prove(rep, "C11")
+    dh = build_harness(wd)
+    keys = hist.interop_keys(dh)
+    rng = Rng(seed * 15485863 + 11)
+    # (a)
+    sizes = tier_sizes(tier, (40, 40), (300, 100))
+    opts = {"clean": True, "huge": False}
+
+    def exp_lines(h):
+        for i, op in enumerate(h["ops"]):
+            f = op.split()
+            if i >= len(h["impl"]):
+                break
+            if f[0] in ("att", "prop") and ":" in h["impl"][i]:
+                yield ("%s %s %s" % ("jatt" if f[0] == "att" else "jprop", hist.key_of_addr(f[3], h["accts"]).hex(), f[4]), (i, 0, "release"))
+            elif f[0] == "atts":
+                pls = hist.payloads_of(h["impl"][i])
+                for j, it in enumerate(f[4].split(";")):
+                    adr, data = it.split(",", 1)
+                    if j < len(pls) and pls[j]:
+                        yield ("jatt %s %s" % (hist.key_of_addr(adr, h["accts"]).hex(), data), (i, j, "release"))
+            elif f[0] == "export":
+                ex = imp.parse_export(h["impl"][i])
+                if ex is None:
+                    yield ("jexport 00 0 0 0", (i, 0, "export-failed"))
+                    continue
+                ks = set(ex) | set(a.pk.hex() for a in h["accts"])
+                for k in sorted(ks):
+                    v = ex.get(k, ("-1", "-1", "-1"))
+                    yield ("jexport %s %s %s %s" % (k, v[0], v[1], v[2]), (i, 0, k[:16]))
+
+    def judge(rep, dh, wd, all_h):
+        bad = judge_lines(rep, all_h, exp_lines, "export_entries_judged")
+        bad = [b for b in bad if b[-1] in ("EXPORT-NOT-EXACT",) or b[3] == "export-failed"]
+        if bad:
+            hi, i, j, what, verdict = bad[0]
+            rep.violation("export-not-exact", "exported protection data is not exactly the highest released slot/source/target",
+                          {"config": all_h[hi]["cfg"], "ops": all_h[hi]["ops"][:i + 1], "key": what, "export": all_h[hi]["impl"][i][:400]})
+            return True
+        return False
+    o2 = dict(opts)
+    run_hist_property(rep, tier, seed, wd, "C11", SIGN_KINDS + ("export", "restart"), o2, sizes, judges=[judge], corpus=False,
+                      nontrivial=lambda h: sum(1 for o in h["ops"] if o == "export") >= 2)
+    # (b) legacy gob records
+    vals = [-1, 0, 1, 5, 1000, 1 << 31, (1 << 63) - 1, (1 << 62)]
+    accts, perms, admins = hist.std_config(keys, nacct=5)
+    hs = []
+    ngob = 12 if tier != "thorough" else 120
+    for _ in range(ngob):
+        r = rng.fork()
+        specs, where = [], []
+        for a in accts[:4]:
+            if r.chance(0.7):
+                s = r.choice(vals)
+                t = r.choice([v for v in vals if v >= s] or [s])
+                specs.append("att %d %d" % (s, t))
+                where.append(a.pk + b"\x02")
+            if r.chance(0.7):
+                specs.append("prop %d" % r.choice(vals))
+                where.append(a.pk + b"\x03")
+        recs = gob_records(dh, specs) if specs else []
+        raws = list(zip(where, recs))
+        cfg = hist.config_lines(accts, perms, admins, raws)
+        ops = ["export"]
+        for sp, (k, _) in zip(specs, raws):
+            a = [x for x in accts if x.pk == k[:48]][0]
+            n0 = "n:" + hx(a.path)
+            f = sp.split()
+            if f[0] == "att":
+                s, t = int(f[1]), int(f[2])
+                for (ps_, pt) in [(max(s, 0), max(t, 0)), (max(s - 1, 0), max(t, 0) + 1), (max(s, 0), max(t, 0) + 1), (max(s, 0) + 1, max(t, 0) + 2)]:
+                    if pt < (1 << 64) and ps_ < (1 << 64):
+                        ops.append(att_line("client1", n0, ps_, pt, 0))
+            else:
+                s = int(f[1])
+                for q in [max(s, 0), max(s, 0) + 1]:
+                    ops.append(prop_line("client1", n0, q, 0))
+        ops += ["export", "restart", "export"]
+        hs.append({"cfg": cfg, "ops": ops, "accts": accts, "opts": {}})
+    engines.exec_histories(dh, wd, hs)
+    rep.cov["legacy_record_histories"] = len(hs)
+    for h in hs:
+        rep.count("gob" + json.dumps(h["cfg"][-6:]), True)
+        if h["bad"]:
+            i, op, il, ml = h["bad"][0]
+            # a legacy record that is not honoured shows as: a request at/below the stored watermark gets signed
+            rep.broken.append(("correspondence:legacy-gob-records(model Gob decode + rules vs implementation)",
+                               json.dumps({"config": h["cfg"], "ops": h["ops"][:i + 1], "impl": il[:200], "model": ml[:200]}), False))
+            break
+    # (c) export -> import into an empty store -> same decisions
+    scen = []
+    nrt = 40 if tier != "thorough" else 600
+    for _ in range(nrt):
+        r = rng.fork()
+        ops = []
+        for _ in range(2 + r.below(6)):
+            k = r.choice(imp.KEYS)
+            if r.chance(0.6):
+                s_ = r.below(25)
+                ops.append("probeatt %s %d %d" % (k.hex(), s_, s_ + 1 + r.below(4)))
+            else:
+                ops.append("probeprop %s %d" % (k.hex(), r.below(30)))
+        ops += ["export", "roundtrip"]
+        for k in imp.KEYS:
+            for _ in range(2):
+                s_ = r.below(30)
+                ops.append("probeatt %s %d %d" % (k.hex(), s_, s_ + 1 + r.below(3)))
+                ops.append("probeprop %s %d" % (k.hex(), r.below(32)))
+        ops += ["export", "exportb"]
+        scen.append((["begin"], ops))
+    res = run_imp_scenarios(rep, dh, wd, scen, label="roundtrip")
+    for cfg, ops, impl, model in res:
+        seen = False
+        for op, il in zip(ops, impl):
+            if op == "roundtrip":
+                seen = True
+            elif seen and op.startswith("probe"):
+                v = il.split()
+                if len(v) == 2 and v[0] != v[1]:
+                    rep.violation("roundtrip-decision-differs", "original and re-imported instance decide differently on the same probe",
+                                  {"config": cfg, "ops": ops[:ops.index(op) + 1], "verdicts": il})
+                    return
+    rep.cov["roundtrip_scenarios"] = len(scen)
+
+
 THEOREMS.update({
+    "C08": ("Dirk.Props.C08", ["Dirk.C08_batch_pointwise", "Dirk.C08_leaves_injective", "Dirk.C08_header_leaves_injective",
+                               "Dirk.C08_signed_root"]),
+    "C09": ("Dirk.Props.C09", ["Dirk.C09_scatter_partition", "Dirk.C09_batch_eq_seq", "Dirk.C09_live_att_rule",
+                               "Dirk.C09_live_prop_rule"]),
+    "C11": ("Dirk.Props.C11", ["Dirk.C11_codec_roundtrip", "Dirk.C11_restart", "Dirk.C11_import_export_same_decisions"]),
+    "C10": ("Dirk.Props.C10", ["Dirk.C10_never_lowers", "Dirk.C10_protects", "Dirk.C10_bad_metadata",
+                               "Dirk.C10_parse_error_no_change", "Dirk.C10_legacy_counterexample"]),
     "C07": ("Dirk.Props.C07", ["Dirk.C07_scan_eq_spec", "Dirk.C07_default_deny", "Dirk.C07_unknown_client", "Dirk.C07_no_identity",
                                "Dirk.C07_refused_no_effect_att", "Dirk.C07_refused_no_effect_prop", "Dirk.C07_refused_no_effect_sign",
                                "Dirk.C07_refused_no_effect_atts", "Dirk.C07_resolved_account", "Dirk.C07_legacy_counterexample",
@@ -517,4 +1011,4 @@ THEOREMS.update({
                                "Dirk.C06_batch_fetch_fault", "Dirk.C06_shape_atts", "Dirk.C06_shape_msign"]),
 })
 
-CHECKS = {"C01": c01, "C02": c02, "C05": c05, "C06": c06, "C07": c07}
+CHECKS = {"C01": c01, "C02": c02, "C05": c05, "C06": c06, "C07": c07, "C08": c08, "C09": c09, "C10": c10, "C11": c11}
